@@ -101,7 +101,12 @@ CLAIMED = {
              "C18_from_unix_rat - for any rational x, UTC or re-zoned, the point has instant = epoch + x exactly, valid, whole "
              "hour and minute, second in [0, 60); C18_seconds_since_rat - seconds_since_unix_epoch is the difference truncated "
              "toward zero (not floored: C18_seconds_since_not_floor_counterexample), for every precision form; round trips "
-             "C18_unix_round_trip_*. Ops unixq and sincefrac tie it to the float implementation on dyadic fractions.",
+             "C18_unix_round_trip_*. Ops unixq and sincefrac tie it to the float implementation on dyadic fractions. THROUGH THE "
+             "PARSER (Props/C18c, model strpZone of the glue after the regex match: the %s translator, the date/time/zone "
+             "buckets, process_time_zone_info, the constructor call): C18_strptime_unix_instant - for every n, mode, legal local "
+             "zone and every parser configuration strptime(n, '%s') is the instant epoch + n in the local zone (the assumed "
+             "zone and the unknown flag never apply); _zero_fields; _with_zone(_counterexample); C17_strptime_zone_default / "
+             "_round_trip for field formats. Ops strpzone (against the model) and strptimeunix.",
         design="DESIGN §8 C18",
         technique="Lean 4 proof + model/implementation correspondence with the OS zone data patched"),
     "C12": dict(
@@ -118,7 +123,11 @@ CLAIMED = {
              "counter-witnesses, matched by mechanism in the correspondence). min_point/max_point (Props/C12mm over the model "
              "RecMM): with no window every function is the existing one (RecMM_none_is_Rec); iteration with a window is the "
              "longest prefix of the unrestricted iteration lying within [min, max] (C12_mm_iter_longest_prefix, closed forms per "
-             "constructor for exact intervals); ops mmr* tie it to the code.",
+             "constructor for exact intervals); ops mmr* tie it to the code. FRACTIONS (Props/C12q over the rational model RecQ): "
+             "the same statements for anchors in any precision form and every exact interval of positive length, however "
+             "small (C12_rat_start_duration_bounded/unbounded, _duration_end_*, _start_second), bounds are exact comparisons of "
+             "rational instants (C12_rat_no_tolerance), the integer model is the restriction (C12_rat_extends_int); op riterq "
+             "compares on dyadic fractions, exactly.",
         design="DESIGN §8 C12",
         technique="Lean 4 proof (induction over iteration, refinement to an arithmetic series of instants) + correspondence"),
     "C13": dict(
@@ -136,7 +145,10 @@ CLAIMED = {
              "(C13_getitem_nominal(_rev)), get_is_valid iff an iterated point has the probe's instant with the fuel that suffices "
              "(C13_is_valid_nominal(_rev)), the iteration branch of get_first_after returns the least iterated member later than "
              "the probe (C13_first_after_nominal). Windows (Props/C13mm): C13_mm_is_valid_sound/_iff_iterated, C13_mm_next_prev, "
-             "C13_mm_first_after_*.",
+             "C13_mm_first_after_*. FRACTIONS (Props/C13q over RecQ): C13_rat_is_valid_iff_iterated, _bounded/_unbounded, "
+             "_off_grid (a probe 0 < eps < L off a member is rejected), C13_rat_next_prev, C13_rat_getitem; ops rqueryq (against "
+             "the model) and rqueryfrac (oracle; found F22: get_first_after dropped the sub-second part of the offset - "
+             "repaired in /repo 6ac11ec).",
         design="DESIGN §8 C13",
         technique="Lean 4 proof + model/implementation correspondence"),
     "C14": dict(
@@ -317,7 +329,11 @@ CLAIMED = {
              "C10_roundtrip_decimal: parse(str d) = d, == both ways, str a fixpoint; C10_decimal_comma_point; "
              "C10_designators_decimal; C10_str_decimal_shape; C09_duration_text_total / _designator_total / _nomatch_syntax: the "
              "duration parser is total (no fuel), a matched text gives a duration or a ValueError-class failure. The op "
-             "durtextq ties the model (with an exact model of CPython float()/repr on its domain) to the code.",
+             "durtextq ties the model (with an exact model of CPython float()/repr on its domain) to the code. ALTERNATIVE "
+             "SPELLING IN FULL (Props/C10c, model parseAltDur / parseA of the TimePointParser fallback with is_duration): "
+             "C10_alt_forms - every complete / reduced / ordinal date form x time form x zone form of the regenerated table "
+             "gives exactly the spelled components and zero for the omitted ones; C10_alt_roundtrip; C10_alt_no_missing_component; "
+             "C10_alt_refused_week/_truncated; C10_alt_sign (a leading sign before an alternative form is refused). Op daltq.",
         design="DESIGN §8 C10, §13",
         technique="Lean 4 proof (regex matcher semantics over regenerated regex ASTs; digit-string lemmas) + correspondence"),
     "C17": dict(
